@@ -24,13 +24,14 @@ type Finding struct {
 
 // Report is the outcome of analysing one run.
 type Report struct {
-	Findings     []Finding
-	Stats        map[string]int64
-	Inconclusive []string
-	Samples      map[string][]string // a few written-out cases per topic
-	Shape        []string            // abstract sequence of notable events (run signature)
-	CaseCount    int                 // engines whose runs hold many cases: number of cases
-	Cases        []string            // hashes of the non-trivial cases
+	Findings      []Finding
+	Stats         map[string]int64
+	Inconclusive  []string
+	Samples       map[string][]string // a few written-out cases per topic
+	Shape         []string            // abstract sequence of notable events (run signature)
+	CaseCount     int                 // engines whose runs hold many cases: number of cases
+	Cases         []string            // hashes of the non-trivial cases
+	DistinctCases int                 // or their number, when the worker counted them itself
 }
 
 type nodeKey struct{ cid, nid uint64 }
@@ -435,6 +436,9 @@ func (a *Analyzer) Feed(r *ev.Rec) {
 		if r.Note != "" {
 			a.sample("program", r.Note)
 		}
+	case "case-summary":
+		a.rep.CaseCount += int(r.Cnt)
+		a.rep.DistinctCases += int(r.Pos)
 	case "case":
 		a.rep.CaseCount++
 		if r.On {
@@ -747,6 +751,33 @@ func (a *Analyzer) onAppend(n *nodeState, r *ev.Rec) {
 			}
 			a.stat("config-chain-links")
 			a.sample("config-chain", cfgString(pred)+" -> "+cfgString(r.Cfg))
+		}
+		if isLeader && e.Index > 1 && st.CfgL > 0 {
+			// the previous configuration is committed in fact: its entry is in
+			// the log of a majority of its own voters
+			if pc := n.latest; pc != nil && pc.Index == st.CfgL && pc.Nodes != nil {
+				if pe, ok := n.log[st.CfgL]; ok {
+					vs := pc.Voters()
+					have := 0
+					for _, v := range vs {
+						x := a.nodes[nodeKey{n.key.cid, v}]
+						if x == nil {
+							continue
+						}
+						lg := x.log
+						if x.crashed {
+							lg = x.crashLog
+						}
+						if xe, ok := lg[st.CfgL]; (ok && xe.term == pe.term) || (st.CfgL <= x.prev && x.st.Snap >= st.CfgL) {
+							have++
+						}
+					}
+					a.stat("config-predecessor-majority-checks")
+					if have < majority(len(vs)) {
+						a.find("C08", "config-over-config-not-on-majority", "", r.Q, "leader %s appends configuration entry %d while its previous configuration %s is in the log of only %d of its %d voters", n.key, e.Index, cfgString(pc), have, len(vs))
+					}
+				}
+			}
 		}
 		if isLeader && e.Index > 1 {
 			if st.Commit < st.CfgL {
